@@ -175,3 +175,13 @@ def run_models_parallel(jobs):
     with ThreadPoolExecutor(max_workers=len(jobs)) as ex:
         futs = [ex.submit(j) for j in jobs]
         return [f.result() for f in futs]
+
+
+def above_noise(d, floor=1e-12):
+    """Part of an absolute deviation that exceeds rounding noise of O(1)-normalised quantities.
+
+    Code-vs-code comparisons are judged relative to the largest element of the expected array; when that array vanishes
+    by symmetry (one-centre momentum between shells with |dl| != 1, odd moments, ...) both sides hold rounding noise only
+    and the ratio of two noises says nothing.  Differences below ``floor`` are therefore not judged.
+    """
+    return max(float(d) - floor, 0.0)
